@@ -40,12 +40,33 @@ type c03In struct {
 	Extract  []pipe.KPiece `json:"extract_tmpl"`
 	Args     []string      `json:"extra_args,omitempty"`
 	Variants []variant     `json:"variants"`
+	Strict   bool          `json:"strict_snapshots,omitempty"` // the twin case that only compares the snapshot texts byte for byte
 }
 type runObs struct {
 	Code   int    `json:"exit"`
 	Stdout string `json:"stdout_hex"`
 	Note   string `json:"note,omitempty"`
+	Snap   string `json:"snapshot_hex,omitempty"` // the same command without --csv: its piped (snapshot) standard output without the last line
 }
+
+// recorded finding: layout widths of the renderers only grow between frames, so the padding of the final snapshot
+// depends on what intermediate refreshes displayed. Domain (decided from the input alone): a variant that pauses
+// standard input (intermediate refreshes happen) of a command that prints a snapshot.
+const kfPadding = "C03-snapshot-padding-history"
+
+func hasRefreshVariant(in c03In) bool {
+	if in.Cmd == "analyze" {
+		return false
+	}
+	for _, v := range in.Variants {
+		if v.Stdin && v.StdinPauseMs > 0 {
+			return true
+		}
+	}
+	return false
+}
+
+const histoNum = 8 // rows `rare histo` displays in the generated cases (-n)
 
 var rareBin string
 var buildOnce sync.Once
@@ -141,6 +162,45 @@ func runVariant(in c03In, v variant, dir string) runObs {
 	}
 	args = append(args, in.Args...)
 	args = append(args, paths...)
+	// the last line of a snapshot is the reader status (bytes read and a data RATE, file counters): timing
+	// dependent by design and not part of the result; everything above it is compared
+	dropStatus := func(ob []byte) []byte {
+		t := bytes.TrimRight(ob, "\n")
+		if i := bytes.LastIndexByte(t, '\n'); i >= 0 {
+			return t[:i+1]
+		}
+		return nil
+	}
+	first := runOnce(in, v, all, args)
+	if in.Cmd == "analyze" {
+		b, _ := hex.DecodeString(first.Stdout)
+		first.Stdout = hex.EncodeToString(dropStatus(b))
+		return first
+	}
+	if first.Code < 0 {
+		return first
+	}
+	// the same command without the CSV export: what it prints when its output is piped (snapshot)
+	var sargs []string
+	for i := 0; i < len(args); i++ {
+		if args[i] == "--csv" {
+			i++
+			continue
+		}
+		sargs = append(sargs, args[i])
+	}
+	snap := runOnce(in, v, all, sargs)
+	if snap.Code != first.Code {
+		first.Note = fmt.Sprintf("exit status %d with --csv, %d without", first.Code, snap.Code)
+		first.Code = -4
+		return first
+	}
+	sb, _ := hex.DecodeString(snap.Stdout)
+	first.Snap = hex.EncodeToString(dropStatus(sb))
+	return first
+}
+
+func runOnce(in c03In, v variant, all []byte, args []string) runObs {
 	cmd := exec.Command(rareBin, args...)
 	cmd.Env = append(os.Environ(), fmt.Sprintf("GOMAXPROCS=%d", v.Gomaxprocs))
 	var feed func()
@@ -193,16 +253,7 @@ func runVariant(in c03In, v variant, dir string) runObs {
 		} else if err != nil {
 			return runObs{Code: -1, Note: err.Error()}
 		}
-		ob := stdout.Bytes()
-		if in.Cmd == "analyze" {
-			// the last line is the reader status (bytes read and a data RATE, file counters): timing
-			// dependent by design and not part of the result; everything above it is compared
-			t := bytes.TrimRight(ob, "\n")
-			if i := bytes.LastIndexByte(t, '\n'); i >= 0 {
-				ob = t[:i+1]
-			}
-		}
-		return runObs{Code: code, Stdout: hex.EncodeToString(ob)}
+		return runObs{Code: code, Stdout: hex.EncodeToString(stdout.Bytes())}
 	case <-time.After(60 * time.Second):
 		cmd.Process.Kill()
 		return runObs{Code: -2, Note: "did not terminate within 60s"}
@@ -255,7 +306,23 @@ func mkCase(in c03In, idx int) Case {
 			kind = 5
 		}
 	}
-	outCoq := fmt.Sprintf("{| k_kind := %d; k_n := %d; k_runs := %s |}", kind, kn, CoqList(rs))
+	var snaps []string
+	for _, r := range runs {
+		if in.Cmd != "analyze" && r.Code >= 0 {
+			b, _ := hex.DecodeString(r.Snap)
+			if len(b) > 60000 {
+				b = b[:60000]
+			}
+			snaps = append(snaps, "unhex "+H(b))
+		}
+	}
+	if len(snaps) != len(runs) {
+		snaps = nil
+	}
+	if kind == 0 {
+		kn = histoNum
+	}
+	outCoq := fmt.Sprintf("{| k_kind := %d; k_n := %d; k_runs := %s; k_strict := %s; k_snaps := %s |}", kind, kn, CoqList(rs), B(in.Strict), CoqList(snaps))
 	tags := []string{"cmd=" + in.Cmd, fmt.Sprintf("files=%d", len(in.Files)), fmt.Sprintf("variants=%d", len(in.Variants))}
 	for _, f := range in.Files {
 		if f.Gzip {
@@ -280,6 +347,9 @@ func mkCase(in c03In, idx int) Case {
 			tags = append(tags, "reverse-files")
 		}
 	}
+	if in.Strict {
+		tags = append(tags, "kf:"+kfPadding, "strict-snapshot-twin")
+	}
 	kb, _ := json.Marshal(in)
 	short := make([]map[string]any, len(runs))
 	for i, r := range runs {
@@ -287,7 +357,11 @@ func mkCase(in c03In, idx int) Case {
 		if len(s) > 400 {
 			s = s[:400] + "…"
 		}
-		short[i] = map[string]any{"exit": r.Code, "stdout_hex": s, "note": r.Note}
+		sn := r.Snap
+		if len(sn) > 1200 {
+			sn = sn[:1200] + "…"
+		}
+		short[i] = map[string]any{"exit": r.Code, "stdout_hex": s, "note": r.Note, "snapshot_hex": sn}
 	}
 	return Case{Coq: "(" + inCoq + ",\n   " + outCoq + ")", Desc: map[string]any{"input": in, "impl": short}, Key: string(kb),
 		Nontrivial: total > 3 && len(in.Variants) >= 4, Tags: pipe.Dedup(tags)}
@@ -303,6 +377,7 @@ func genIn(r *Rng) c03In {
 	in.Regex = `^([^|]*)\|([^|]*)\|([^|]*)$`
 	switch cmd {
 	case "histo":
+		in.Args = []string{"-n", fmt.Sprint(histoNum)}
 		if r.Bool() {
 			in.Extract = []pipe.KPiece{{Kind: "group", Idx: 1}}
 		} else {
@@ -418,7 +493,7 @@ func alignedIn() c03In {
 	for i := 0; i < 500; i++ {
 		b = append(b, append(bytes.Repeat([]byte("c"), 123), []byte("|d|2\n")...)...)
 	}
-	in := c03In{Cmd: "histo", Regex: `^([^|]*)\|([^|]*)\|([^|]*)$`, Extract: []pipe.KPiece{{Kind: "group", Idx: 1}},
+	in := c03In{Cmd: "histo", Args: []string{"-n", fmt.Sprint(histoNum)}, Regex: `^([^|]*)\|([^|]*)\|([^|]*)$`, Extract: []pipe.KPiece{{Kind: "group", Idx: 1}},
 		Files: []c03File{{Name: "aligned.txt", Content: hex.EncodeToString(b)}}}
 	in.Variants = []variant{{Workers: 1, Batch: 1000, Buffer: 1, Readers: 1, Gomaxprocs: 1}, {Workers: 2, Batch: 1000, Buffer: 4, Readers: 1, Gomaxprocs: 4},
 		{Workers: 8, Batch: 3, Buffer: 1, Readers: 1, Gomaxprocs: 16}, {Workers: 2, Batch: 1000, Buffer: 1, Readers: 3, Gomaxprocs: 4, Resplit: 2}}
@@ -427,7 +502,7 @@ func alignedIn() c03In {
 
 // standard input with a pause longer than the 250 ms auto-flush, keys and increments that use {line}
 func timedIn() c03In {
-	in := c03In{Cmd: "histo", Regex: `^([^|]*)\|([^|]*)\|([^|]*)$`,
+	in := c03In{Cmd: "histo", Args: []string{"-n", fmt.Sprint(histoNum)}, Regex: `^([^|]*)\|([^|]*)\|([^|]*)$`,
 		Extract: []pipe.KPiece{{Kind: "group", Idx: 1}, {Kind: "lit", Text: "\x00"}, {Kind: "line"}},
 		Files:   []c03File{{Name: "in.txt", Content: hex.EncodeToString([]byte("a|x|1\nb|x|1\na|y|1\nc|x|1\nb|y|1\na|z|1\n"))}}}
 	in.Variants = []variant{{Workers: 1, Batch: 1000, Buffer: 1, Readers: 1, Gomaxprocs: 1},
@@ -495,7 +570,7 @@ func main() {
 	Main(&Prop{
 		Name:   "C03",
 		Header: pipe.Header + "From RareV Require Import Corr.C03Case.\nDefinition mm := C03Case.mm.\n",
-		Rule: "the `rare` binary built from the working tree: histo, tabulate, heatmap, spark, bargraph (CSV read back by the strict RFC 4180 reader in Coq and compared with the C07 models over the sequential reference keys; exit status against exit_code) reduce (two group expressions, the first sometimes empty, sum and count accumulators: CSV rows compared as a set with the C07 AccumulatingGroup model) and analyze (plain, -x, --reverse, extra quantiles: the snapshot text without its timing-dependent status line must be the same under every variant and start with the sample count; exit status) on generated corpora of 1-4 files (plain/gzip, 0-1800 lines, keys with commas, quotes, leading space, tab, non-ASCII; increments incl. negative, zero, non-numeric) under 6 tuning variants each: workers 1/2/8, batch 1/3/1000, batch-buffer 1/4, readers 1/3, GOMAXPROCS 1/4/16, file order reversed, the same lines re-divided among 1-4 files, standard input, and for the order-sensitive commands standard input in 3-5 bursts so that the 100 ms refresh computes intermediate results. " +
+		Rule: "the `rare` binary built from the working tree: histo, tabulate, heatmap, spark, bargraph (CSV read back by the strict RFC 4180 reader in Coq and compared with the C07 models over the sequential reference keys; exit status against exit_code) reduce (two group expressions, the first sometimes empty, sum and count accumulators: CSV rows compared as a set with the C07 AccumulatingGroup model) and analyze (plain, -x, --reverse, extra quantiles: the snapshot text without its timing-dependent status line must be the same under every variant and start with the sample count; exit status) on generated corpora of 1-4 files (plain/gzip, 0-1800 lines, keys with commas, quotes, leading space, tab, non-ASCII; increments incl. negative, zero, non-numeric) under 6 tuning variants each: workers 1/2/8, batch 1/3/1000, batch-buffer 1/4, readers 1/3, GOMAXPROCS 1/4/16, file order reversed, the same lines re-divided among 1-4 files, standard input, and for the order-sensitive commands and spark standard input in 3-5 bursts so that the 100 ms refresh computes intermediate results. Every variant is run twice: with --csv - (the export) and without (the snapshot the command prints when piped, minus its last line, the timing-dependent reader status); the snapshot texts must agree across variants with runs of spaces read as one (strict byte equality is the recorded finding C03-snapshot-padding-history, exercised by twin cases of the burst variants), and for histo every displayed row must carry the aggregated count of its key. spark --cols n: final-table check. " +
 			"distinct = distinct (command, corpus, variants); non-trivial = more than 3 lines and at least 4 variants.",
 		Gen: func(r *Rng, n int, tier string) []Case {
 			ins := make([]c03In, n)
@@ -511,6 +586,15 @@ func main() {
 			if n > 5 {
 				ins[4] = burstIn("spark", r)
 			}
+			// strict twins: the same input, only the byte-for-byte comparison of the snapshot texts (known finding)
+			for i := 0; i < n && len(ins) < n+n/6+2; i++ {
+				if hasRefreshVariant(ins[i]) {
+					tw := ins[i]
+					tw.Strict = true
+					ins = append(ins, tw)
+				}
+			}
+			n = len(ins)
 			out := make([]Case, n)
 			var wg sync.WaitGroup
 			sem := make(chan struct{}, 6)
